@@ -42,6 +42,9 @@ pub enum StreamMode {
     Idle,
     /// victim writes periodically, never reads
     Writer,
+    /// victim reads 5 bytes at a time and pauses 1 ms after every read (most of the time part of
+    /// a received segment is stashed in the stream's read buffer: unread data)
+    Nibble,
 }
 
 #[derive(Clone, Copy, Debug, Serialize, Deserialize, PartialEq, Eq)]
@@ -103,6 +106,86 @@ pub struct Scenario {
     /// `flags.by_regex`, all of a single victim by name, else `v0` by name)
     #[serde(default)]
     pub targets: Vec<Target>,
+    /// upper bound of the message latency in ms; 0 (or <= lat_ms) = every message takes exactly
+    /// lat_ms.  Above lat_ms every message draws its own latency from lat_ms..=lat_max_ms (turmoil's
+    /// default distribution, seeded by `seed`), so that a later segment can overtake an earlier one.
+    #[serde(default)]
+    pub lat_max_ms: u32,
+    /// (boundary, victim, ms): after `boundary` steps `Sim::set_link_latency("p", "v<victim>", ms)`
+    /// (both directions of that link; applied before the crash / bounce calls of the same boundary).
+    /// A message keeps the latency in force when it was sent, so lowering the latency lets later
+    /// messages overtake earlier ones.
+    #[serde(default)]
+    pub link_lat: Vec<(u32, usize, u32)>,
+}
+
+/// The harness's own account of the latency configuration of the links peer <-> victim.
+struct LinkModel {
+    tick: u64,
+    lo: u64,
+    hi: u64,
+    /// per victim: (boundary, ms) in the order in which they are applied
+    ch: Vec<Vec<(u64, u64)>>,
+}
+
+impl LinkModel {
+    fn of(sc: &Scenario, nvict: usize) -> LinkModel {
+        let lo = sc.lat_ms.max(1) as u64;
+        let hi = (sc.lat_max_ms as u64).max(lo);
+        let mut ch = vec![Vec::new(); nvict];
+        let mut all: Vec<(u32, usize, u32)> = sc.link_lat.clone();
+        all.sort_by_key(|c| c.0); // stable: equal boundaries keep the order of application
+        for (at, v, ms) in all {
+            ch[v % nvict].push((at as u64, ms.max(1) as u64));
+        }
+        LinkModel { tick: sc.tick_ms.max(1) as u64, lo, hi, ch }
+    }
+    /// latency is drawn at random per message somewhere (arrival steps are only known as ranges)
+    fn random(&self) -> bool {
+        self.hi > self.lo
+    }
+    /// (min, max) latency in ms of the link p <-> v once the changes of boundaries <= b are made
+    fn ms(&self, v: usize, b: u64) -> (u64, u64) {
+        match self.ch[v].iter().filter(|(at, _)| *at <= b).last() {
+            Some((_, ms)) => (*ms, *ms),
+            None => (self.lo, self.hi),
+        }
+    }
+    /// (fewest, most) steps from the step in which a message is sent to the step in which it is
+    /// delivered, for a message sent while the configuration of boundary b is in force (a message
+    /// sent DURING step s sees the configuration of boundary s - 1; one sent by Sim::crash at
+    /// boundary b sees that of b)
+    fn steps(&self, v: usize, b: u64) -> (u64, u64) {
+        let (lo, hi) = self.ms(v, b);
+        (lo.div_ceil(self.tick), hi.div_ceil(self.tick))
+    }
+    /// a message sent during step s (>= 1) has arrived by this step
+    fn arrives_by(&self, v: usize, s: u64) -> u64 {
+        s + self.steps(v, s.saturating_sub(1)).1
+    }
+    /// most steps any message sent at a boundary / during a step in b0..=b1 can take
+    fn hi_steps_between(&self, v: usize, b0: u64, b1: u64) -> u64 {
+        (b0.min(b1)..=b1).map(|b| self.steps(v, b).1).max().unwrap_or(0)
+    }
+    fn max_ms(&self) -> u64 {
+        self.ch.iter().flatten().map(|c| c.1).max().unwrap_or(0).max(self.hi)
+    }
+}
+
+/// 16 bytes = one segment; byte 0 names the connection, bytes 1..3 number the write (from 1)
+fn payload(id: u8, n: u16) -> [u8; 16] {
+    let mut b = [id; 16];
+    b[1..3].copy_from_slice(&n.to_le_bytes());
+    b
+}
+
+/// connection id of a payload's first byte (streams accepted by the peer are numbered from 1000)
+fn conn_of_byte(b: u8) -> usize {
+    if b & 0x80 != 0 {
+        1000 + (b & 0x7f) as usize
+    } else {
+        b as usize
+    }
 }
 
 /// Which hosts one `Sim::crash` / `Sim::bounce` call addresses.
@@ -196,6 +279,8 @@ struct Shared {
     udp_recv: RefCell<Vec<(String, u64, u32, u64)>>, // victim, incarnation, seq, step
     udp_sent: RefCell<Vec<(usize, u32, u64)>>,       // victim idx, seq, step
     conns: RefCell<BTreeMap<usize, ConnRec>>,
+    /// (connection, write number) of every segment a victim's application has read completely
+    consumed: RefCell<std::collections::BTreeSet<(usize, u16)>>,
     by_log: RefCell<BTreeMap<String, Vec<String>>>,
     errors: RefCell<Vec<String>>,
 }
@@ -344,6 +429,9 @@ async fn victim(sh: Rc<Shared>, name: String, inc: u64, sc: Scenario) -> turmoil
                         match s.read(&mut b).await {
                             Ok(0) | Err(_) => break,
                             Ok(n) => {
+                                if n == 16 {
+                                    sh2.consumed.borrow_mut().insert((conn_of_byte(b[0]), u16::from_le_bytes([b[1], b[2]])));
+                                }
                                 if s.write_all(&b[..n]).await.is_err() {
                                     break;
                                 }
@@ -354,9 +442,32 @@ async fn victim(sh: Rc<Shared>, name: String, inc: u64, sc: Scenario) -> turmoil
                     StreamMode::Sink => loop {
                         match s.read(&mut b).await {
                             Ok(0) | Err(_) => break,
-                            Ok(_) => bump(&sh2, &n2),
+                            Ok(n) => {
+                                if n == 16 {
+                                    sh2.consumed.borrow_mut().insert((conn_of_byte(b[0]), u16::from_le_bytes([b[1], b[2]])));
+                                }
+                                bump(&sh2, &n2)
+                            }
                         }
                     },
+                    StreamMode::Nibble => {
+                        // a read never spans two segments: 5 + 5 + 5 + 1 bytes per 16-byte segment
+                        let mut seg: Vec<u8> = Vec::new();
+                        loop {
+                            match s.read(&mut b[..5]).await {
+                                Ok(0) | Err(_) => break,
+                                Ok(n) => {
+                                    seg.extend_from_slice(&b[..n]);
+                                    if seg.len() >= 16 {
+                                        sh2.consumed.borrow_mut().insert((conn_of_byte(seg[0]), u16::from_le_bytes([seg[1], seg[2]])));
+                                        seg.clear();
+                                    }
+                                    bump(&sh2, &n2);
+                                    tokio::time::sleep(Duration::from_millis(1)).await;
+                                }
+                            }
+                        }
+                    }
                     StreamMode::Idle => {}
                     StreamMode::Writer => loop {
                         if s.write_all(&[7u8; 8]).await.is_err() {
@@ -393,9 +504,11 @@ async fn peer(sh: Rc<Shared>, sc: Scenario, nvict: usize) -> turmoil::Result {
                 sh_acc.conns.borrow_mut().insert(id, ConnRec { victim: v, send_step: at, connected_step: Some(at), accept_side: true, ..Default::default() });
                 let sh3 = sh_acc.clone();
                 tokio::task::spawn_local(async move {
+                    let mut n_w = 0u16;
                     loop {
                         sh3.conns.borrow_mut().get_mut(&id).unwrap().writer_blocked = true;
-                        let res = s.write_all(&[0x5a; 16]).await;
+                        n_w = n_w.wrapping_add(1);
+                        let res = s.write_all(&payload(0x80 | (n_acc as u8 & 0x7f), n_w)).await;
                         let at = sh3.step.get();
                         let mut g = sh3.conns.borrow_mut();
                         let c = g.get_mut(&id).unwrap();
@@ -478,9 +591,11 @@ async fn peer(sh: Rc<Shared>, sc: Scenario, nvict: usize) -> turmoil::Result {
                         if !do_write {
                             return Some(w);
                         }
+                        let mut n_w = 0u16;
                         loop {
                             sh3.conns.borrow_mut().get_mut(&i).unwrap().writer_blocked = true;
-                            let res = w.write_all(&[i as u8; 16]).await;
+                            n_w = n_w.wrapping_add(1);
+                            let res = w.write_all(&payload(i as u8 & 0x7f, n_w)).await;
                             let at = sh3.step.get();
                             let mut g = sh3.conns.borrow_mut();
                             let c = g.get_mut(&i).unwrap();
@@ -565,12 +680,23 @@ struct RunOut {
     total: u64,
     /// (conn id, crash boundary): peer writers that were blocked at the crash instant
     writers_blocked_at_crash: Vec<(usize, u64)>,
+    /// (conn id, victim, write number, step): data segments of the peer's writers handed to a
+    /// victim's TCP stack (turmoil's "Delivered" trace event), in delivery order
+    delivered: Vec<(usize, usize, u16, u64)>,
+}
+
+/// `TCP [0x1, 0xA, ..]` of a trace line -> the bytes
+fn tcp_payload_of(e: &str) -> Option<Vec<u8>> {
+    let a = e.find("protocol=TCP [")? + "protocol=TCP [".len();
+    let z = a + e[a..].find(']')?;
+    e[a..z].split(", ").map(|t| u8::from_str_radix(t.trim().trim_start_matches("0x"), 16).ok()).collect()
 }
 
 fn execute(sc: &Scenario, with_ctl: bool) -> RunOut {
     let tick = sc.tick_ms.max(1) as u64;
     let lat = sc.lat_ms.max(1) as u64;
     let nvict = nvict_of(sc);
+    let lm = LinkModel::of(sc, nvict);
     let reg_order = reg_order_of(sc, nvict);
     // rank[v] = position of victim v in the registration order
     let mut rank = vec![0usize; nvict];
@@ -581,7 +707,7 @@ fn execute(sc: &Scenario, with_ctl: bool) -> RunOut {
     let mut b = turmoil::Builder::new();
     b.tick_duration(Duration::from_millis(tick))
         .min_message_latency(Duration::from_millis(lat))
-        .max_message_latency(Duration::from_millis(lat))
+        .max_message_latency(Duration::from_millis(lm.hi))
         .tcp_capacity(sc.capacity.max(1))
         .epoch(SystemTime::UNIX_EPOCH + Duration::from_secs(1))
         .rng_seed(sc.seed)
@@ -612,7 +738,18 @@ fn execute(sc: &Scenario, with_ctl: bool) -> RunOut {
             victim(sh2.clone(), name.clone(), inc, sc2.clone())
         });
     }
-    let victim_ips: Vec<String> = (0..nvict).map(|v| sim.lookup(format!("v{v}")).to_string()).collect();
+    // how a victim's address looks in front of the port in a trace line
+    let victim_ips: Vec<String> = (0..nvict)
+        .map(|v| match sim.lookup(format!("v{v}")) {
+            std::net::IpAddr::V4(a) => a.to_string(),
+            std::net::IpAddr::V6(a) => format!("[{a}]"),
+        })
+        .collect();
+    if lm.random() {
+        // per-message random latencies consume the simulation's RNG, and a crash changes how many
+        // messages there are: keep the bystanders' own link out of it (needed for the twin comparison)
+        sim.set_link_latency("b0", "b1", Duration::from_millis(lat));
+    }
     let mut out = RunOut {
         sh: sh.clone(),
         downs: vec![Vec::new(); nvict],
@@ -621,8 +758,9 @@ fn execute(sc: &Scenario, with_ctl: bool) -> RunOut {
         phase_labels: Vec::new(),
         total: 0,
         writers_blocked_at_crash: Vec::new(),
+        delivered: Vec::new(),
     };
-    let settle = lat.div_ceil(tick) + 4;
+    let settle = lm.max_ms().max(lat).div_ceil(tick) + 4;
     let total = sc.run_steps as u64 + 2 * settle;
     out.total = total;
     let mut down = vec![false; nvict];
@@ -637,6 +775,11 @@ fn execute(sc: &Scenario, with_ctl: bool) -> RunOut {
     let live_of = |v: usize| sh.live.borrow().get(&format!("v{v}")).copied().unwrap_or(0);
     let starts_of = |v: usize| sh.starts.borrow().get(&format!("v{v}")).copied().unwrap_or(0);
     for done in 0..total {
+        for (at, v, ms) in sc.link_lat.iter() {
+            if *at as u64 == done {
+                sim.set_link_latency("p", format!("v{}", v % nvict), Duration::from_millis((*ms).max(1) as u64));
+            }
+        }
         if with_ctl {
             for (k, (at, c)) in sc.ctl.iter().enumerate() {
                 if *at as u64 != done {
@@ -780,6 +923,16 @@ fn execute(sc: &Scenario, with_ctl: bool) -> RunOut {
             fail!("step-error", format!("{e}"));
             break;
         }
+        let evs = trace::since(ev_before);
+        for e in evs.iter() {
+            if e.starts_with("Delivered") {
+                if let Some(v) = (0..nvict).find(|v| e.contains(&format!("dst={}:", victim_ips[*v]))) {
+                    if let Some(b) = tcp_payload_of(e).filter(|b| b.len() == 16) {
+                        out.delivered.push((conn_of_byte(b[0]), v, u16::from_le_bytes([b[1], b[2]]), done + 1));
+                    }
+                }
+            }
+        }
         // a crashed host does nothing
         for v in 0..nvict {
             if down[v] {
@@ -792,7 +945,7 @@ fn execute(sc: &Scenario, with_ctl: bool) -> RunOut {
                 if live != 0 {
                     fail!("crashed-host-has-live-tasks", format!("{name}: {live}"));
                 }
-                for e in trace::since(ev_before) {
+                for e in evs.iter() {
                     if e.starts_with("Send") && e.contains(&format!("src={}:", victim_ips[v])) {
                         fail!("crashed-host-sent-a-message", format!("{name} during step {}: {e}", done + 1));
                     }
@@ -810,8 +963,9 @@ pub fn run(sc: &Scenario) -> Outcome {
     let mut out = Outcome::ok();
     let tick = sc.tick_ms.max(1) as u64;
     let lat = sc.lat_ms.max(1) as u64;
-    let ceil_l = lat.div_ceil(tick);
+    let _ = (tick, lat);
     let nvict = nvict_of(sc);
+    let lm = LinkModel::of(sc, nvict);
     let (r, _events) = trace::capture(|| execute(sc, true));
     if let Some((sig, det)) = r.fail.clone() {
         out.fail(sig, det);
@@ -873,7 +1027,11 @@ pub fn run(sc: &Scenario) -> Outcome {
             out.fail("datagram-received-but-never-sent", format!("{name} seq {seq}"));
             return out;
         };
-        let j = k + ceil_l;
+        if lm.random() {
+            // the arrival step of a datagram is only known as a range: not asserted
+            continue;
+        }
+        let j = lm.arrives_by(v, *k);
         if in_down(v, j) {
             out.fail(
                 "datagram-that-arrived-during-downtime-was-handed-to-new-incarnation",
@@ -891,7 +1049,10 @@ pub fn run(sc: &Scenario) -> Outcome {
     let got_dgram: std::collections::BTreeSet<(usize, u32)> = sh.udp_recv.borrow().iter().map(|(n, _, s, _)| (n[1..].parse::<usize>().unwrap(), *s)).collect();
     let mut must_dgrams = 0u64;
     for ((v, seq), k) in sent.iter() {
-        let j = k + ceil_l;
+        if lm.random() {
+            break;
+        }
+        let j = lm.arrives_by(*v, *k);
         if in_down(*v, j) {
             dgram_down += 1;
             continue;
@@ -917,12 +1078,16 @@ pub fn run(sc: &Scenario) -> Outcome {
     // connections
     let mut unblocked_checked = 0u64;
     let (mut parked_writers, mut parked_writers_released, mut parked_writers_released_after_bounce) = (0u64, 0u64, 0u64);
+    let (mut parked_unread, mut parked_unread_only_out_of_order, mut parked_unread_some_out_of_order) = (0u64, 0u64, 0u64);
     for (i, c) in sh.conns.borrow().iter() {
         let v = c.victim;
-        let j = c.send_step + ceil_l; // SYN delivered at the victim's turn in step j
+        // the SYN is delivered at the victim's turn in a step of j_lo..=j_hi (one step unless latencies are random)
+        let (l_lo, l_hi) = lm.steps(v, c.send_step.saturating_sub(1));
+        let (j_lo, j_hi) = (c.send_step + l_lo, c.send_step + l_hi);
+        let j = j_hi;
         let crashes_after_send: Vec<(u64, Option<u64>)> = r.downs[v].iter().filter(|(cr, _)| *cr >= c.send_step).cloned().collect();
         // SYN matured while down: must never be accepted by the new incarnation
-        if !c.accept_side && in_down(v, j) {
+        if !c.accept_side && (j_lo..=j_hi).all(|j| in_down(v, j)) {
             if c.connected_step.is_some() {
                 out.fail("connect-that-arrived-during-downtime-was-accepted", format!("conn {i} to v{v}: SYN sent step {}, arrives step {j}, downs {:?}: connected at {:?}", c.send_step, r.downs[v], c.connected_step));
                 return out;
@@ -931,7 +1096,7 @@ pub fn run(sc: &Scenario) -> Outcome {
             if let Some((_, Some(b))) = r.downs[v].iter().find(|(cr, b)| j > *cr && b.map(|b| j <= b).unwrap_or(true)) {
                 // the first step the host actually runs again (it may be crashed again on the spot)
                 let t_up = (b + 1..=r.total).find(|t| !in_down(v, *t));
-                if t_up.map(|t| t + ceil_l + 3 <= r.total).unwrap_or(false) && c.connect_err.is_none() {
+                if t_up.map(|t| t + lm.steps(v, t - 1).1 + 3 <= r.total).unwrap_or(false) && c.connect_err.is_none() {
                     out.fail("connect-from-downtime-still-pending-after-bounce", format!("conn {i} to v{v}: SYN arrived step {j} during downtime, host bounced at boundary {b} and running again in step {t_up:?}, still pending at the end (step {})", r.total));
                     return out;
                 }
@@ -970,7 +1135,11 @@ pub fn run(sc: &Scenario) -> Outcome {
         // established before a crash: blocked reader / writer must be unblocked promptly
         if let (Some(cs), Some((cr, _))) = (c.connected_step, crashes_after_send.first()) {
             if cs <= *cr || (cs == *cr + 1 && j <= *cr) {
-                let deadline = cr + ceil_l + 3;
+                // everything either side sent up to the crash instant (the FIN / RST of the crash
+                // included) has arrived by step `flushed`
+                let rst_by = cr + lm.steps(v, *cr).1;
+                let flushed = (cs.min(*cr).max(1)..=*cr).map(|s| lm.arrives_by(v, s)).max().unwrap_or(0).max(rst_by);
+                let deadline = flushed + 3;
                 if deadline <= r.total {
                     // reader
                     if c.reader_end.is_none() && c.reader_blocked {
@@ -997,50 +1166,74 @@ pub fn run(sc: &Scenario) -> Outcome {
                     let parked_at_crash = r.writers_blocked_at_crash.iter().any(|(ci, b)| ci == i && b == cr);
                     if parked_at_crash {
                         parked_writers += 1;
-                    }
-                    if c.writer_end.is_none() && c.writer_blocked && parked_at_crash {
-                        // did the victim hold unread data of this stream when it crashed? then its
-                        // drop sends a RST; otherwise only a FIN (which cannot unblock a writer)
-                        let victim_never_reads = c.accept_side || matches!(sc.flags.stream_mode, StreamMode::Idle | StreamMode::Writer);
-                        let delivered_before_crash = cs + ceil_l <= *cr;
+                        // Did the victim hold unread data of this stream when it went down?  Unread =
+                        // handed to the victim's TCP stack by step cr and not (completely) read by its
+                        // application: queued for the reader, partly read, or parked in the reorder
+                        // buffer because an earlier segment is still on the wire.  Then dropping the
+                        // stream must reset the connection (and a reset releases a parked writer);
+                        // without unread data the drop sends only a FIN.
+                        let got: Vec<u16> = r.delivered.iter().filter(|(ci, dv, _, st)| ci == i && *dv == v && *st <= *cr).map(|d| d.2).collect();
+                        let unread: Vec<u16> = got.iter().copied().filter(|w| !sh.consumed.borrow().contains(&(*i, *w))).collect();
+                        // first write number the victim's stack has not got: everything above it is out of order
+                        let in_order_end = (1u16..).find(|w| !got.contains(w)).unwrap();
+                        let out_of_order = unread.iter().filter(|w| **w > in_order_end).count();
+                        if !unread.is_empty() {
+                            parked_unread += 1;
+                            if out_of_order == unread.len() {
+                                parked_unread_only_out_of_order += 1;
+                            } else if out_of_order > 0 {
+                                parked_unread_some_out_of_order += 1;
+                            }
+                        }
+                        let rst_deadline = rst_by + 3;
                         // The segments that filled the window were all sent by step cr, so they have
-                        // reached the victim's address by step cr + ceil_l (+1 slack).  The first step
+                        // reached the victim's address by step `flushed` (+1 slack).  The first step
                         // from then on that the victim RUNS (it has been bounced) hands them to a stack
                         // that has no such connection, which must answer with a reset; that reaches
                         // the peer one latency later.
-                        let t_up = (cr + ceil_l + 1..=r.total).find(|t| !in_down(v, *t));
-                        let reset_deadline = t_up.map(|t| t + ceil_l + 3).filter(|d| *d <= r.total);
-                        if victim_never_reads && delivered_before_crash {
-                            out.fail(
-                                "peer-write-hangs-after-crash:victim-had-unread-data",
-                                format!("conn {i} to v{v}: peer's write was blocked on flow control when the host crashed after step {cr} (victim held unread data, so a RST was sent) and is still blocked at step {}", r.total),
+                        let t_up = (flushed + 1..=r.total).find(|t| !in_down(v, *t));
+                        let reset_deadline = t_up.map(|t| t + lm.hi_steps_between(v, *cr, t) + 3).filter(|d| *d <= r.total);
+                        let still_parked = c.writer_end.is_none() && c.writer_blocked;
+                        if !unread.is_empty() && (still_parked || c.writer_end.as_ref().map(|e| e.1 > rst_deadline).unwrap_or(false)) {
+                            let what = format!(
+                                "conn {i} to v{v}: peer's write was blocked on flow control when the host went down after step {cr}; the victim's stack had been handed segments {got:?} of this stream by then, of which {unread:?} were not read by its application ({out_of_order} of them out of order, waiting in the reorder buffer for segment {in_order_end}), so dropping the stream had to send a RST (latency at that instant <= {} steps)",
+                                lm.steps(v, *cr).1
                             );
+                            if still_parked {
+                                out.fail("peer-write-hangs-after-crash:victim-had-unread-data", format!("{what}; the write is still blocked at step {}", r.total));
+                            } else {
+                                out.fail(
+                                    "peer-write-unblocked-too-late-after-crash:victim-had-unread-data",
+                                    format!("{what}; the write ended only at step {} (deadline {rst_deadline}; downs {:?})", c.writer_end.as_ref().unwrap().1, r.downs[v]),
+                                );
+                            }
                             return out;
-                        } else if let Some(d) = reset_deadline {
-                            // behind F-C04-2: the peer may (known finding) stay parked while the host
-                            // is down, but not for ever: once the host is back its stack sees the
-                            // stale segments and the peer must be released
-                            out.fail(
-                                "peer-write-still-hangs-after-bounce:stale-segments-never-reset",
-                                format!(
-                                    "conn {i} to v{v}: peer's write was blocked on flow control (window full, segments on the wire) when the host went down after step {cr}; downs {:?}; the host runs again from step {} on, the stale segments had arrived by then, yet the write is still blocked at step {} (deadline {d})",
-                                    r.downs[v],
-                                    t_up.unwrap(),
-                                    r.total
-                                ),
-                            );
-                            return out;
-                        } else if sc.strict_known || !is_known("F-C04-2") {
-                            out.fail(
-                                "peer-write-hangs-after-crash:victim-had-no-unread-data",
-                                format!("conn {i} to v{v}: peer's write was blocked on flow control when the host crashed after step {cr} and is still blocked at step {} (victim had consumed everything delivered, so only a FIN was sent)", r.total),
-                            );
-                            return out;
-                        } else {
-                            out.exclude("F-C04-2");
                         }
-                    } else if parked_at_crash {
-                        if let Some((_, at)) = &c.writer_end {
+                        if still_parked {
+                            if let Some(d) = reset_deadline {
+                                // behind F-C04-2: the peer may (known finding) stay parked while the host
+                                // is down, but not for ever: once the host is back its stack sees the
+                                // stale segments and the peer must be released
+                                out.fail(
+                                    "peer-write-still-hangs-after-bounce:stale-segments-never-reset",
+                                    format!(
+                                        "conn {i} to v{v}: peer's write was blocked on flow control (window full, segments on the wire) when the host went down after step {cr}; downs {:?}; the host runs again from step {} on, the stale segments had arrived by then, yet the write is still blocked at step {} (deadline {d})",
+                                        r.downs[v],
+                                        t_up.unwrap(),
+                                        r.total
+                                    ),
+                                );
+                                return out;
+                            } else if sc.strict_known || !is_known("F-C04-2") {
+                                out.fail(
+                                    "peer-write-hangs-after-crash:victim-had-no-unread-data",
+                                    format!("conn {i} to v{v}: peer's write was blocked on flow control when the host crashed after step {cr} and is still blocked at step {} (victim had consumed everything delivered, so only a FIN was sent)", r.total),
+                                );
+                                return out;
+                            } else {
+                                out.exclude("F-C04-2");
+                            }
+                        } else if let Some((_, at)) = &c.writer_end {
                             if *at > *cr {
                                 parked_writers_released += 1;
                                 let bounced = r.downs[v].iter().find(|(c0, _)| c0 == cr).and_then(|d| d.1);
@@ -1054,9 +1247,9 @@ pub fn run(sc: &Scenario) -> Outcome {
             }
         }
         // connect aimed at a running, accepting incarnation far from any restart: must succeed
-        if !c.accept_side && sc.flags.accept && crashes_after_send.is_empty() && !near_restart(v, j) && !near_restart(v, j + 1) {
-            let started = r.inc_start[v].iter().rposition(|st| *st < j).map(|n| r.inc_start[v][n]).unwrap_or(0);
-            if j >= started + 3 && j + 3 <= r.total && c.connected_step.is_none() {
+        if !c.accept_side && sc.flags.accept && crashes_after_send.is_empty() && (j_lo..=j_hi).all(|j| !near_restart(v, j) && !near_restart(v, j + 1)) {
+            let started = r.inc_start[v].iter().rposition(|st| *st < j_lo).map(|n| r.inc_start[v][n]).unwrap_or(0);
+            if j_lo >= started + 3 && (j_lo == j_hi || (j_lo..=j_hi).all(|j| !in_down(v, j))) && j + 3 <= r.total && c.connected_step.is_none() {
                 out.fail("connect-to-restarted-host-failed", format!("conn {i} to v{v}: SYN arrives step {j}, incarnation started at boundary {started}: {:?}", c.connect_err));
                 return out;
             }
@@ -1078,7 +1271,8 @@ pub fn run(sc: &Scenario) -> Outcome {
             }
         }
         // the peer's own guards/clock are not affected either: its connections to the *other* victim
-        if never_targeted.iter().any(|n| *n) {
+        // (with per-message random latencies the crash shifts the draws of every later message: no twin)
+        if never_targeted.iter().any(|n| *n) && !lm.random() {
             for (i, c) in sh.conns.borrow().iter() {
                 if never_targeted[c.victim] {
                     let t = twin.sh.conns.borrow().get(i).cloned();
@@ -1133,6 +1327,39 @@ pub fn run(sc: &Scenario) -> Outcome {
     out.count("  of these released only after the host was bounced (stale segments reset)", parked_writers_released_after_bounce);
     if parked_writers_released_after_bounce > 0 {
         out.label("parked-writer-reset-after-bounce");
+    }
+    out.count("  of these: the victim held unread data of the stream (RST required)", parked_unread);
+    out.count("    of these: ALL of the unread data was out of order (reorder buffer only)", parked_unread_only_out_of_order);
+    out.count("    of these: some of the unread data was out of order", parked_unread_some_out_of_order);
+    if parked_unread > 0 {
+        out.label("parked-writer:victim-held-unread-data");
+    }
+    if parked_unread_only_out_of_order > 0 {
+        out.label("parked-writer:unread-data-only-in-reorder-buffer");
+    }
+    if parked_unread_some_out_of_order > 0 {
+        out.label("parked-writer:unread-data-partly-out-of-order");
+    }
+    if lm.random() {
+        out.label("latency:random-per-message");
+    }
+    if !sc.link_lat.is_empty() {
+        out.label("latency:link-latency-changed-during-run");
+    }
+    {
+        // a data segment of a peer writer overtook an earlier one of the same stream
+        let mut top: BTreeMap<usize, u16> = BTreeMap::new();
+        let mut overtaken = false;
+        for (ci, _, w, _) in r.delivered.iter() {
+            let t = top.entry(*ci).or_default();
+            if *w < *t {
+                overtaken = true;
+            }
+            *t = (*t).max(*w);
+        }
+        if overtaken {
+            out.label("segments-delivered-out-of-order");
+        }
     }
     out.nontrivial = r.phase_labels.iter().any(|l| l != "phase:no-connection") || (f.multicast && ncrash > 0) || (f.fs && ncrash > 0) || dgram_down > 0;
     out
@@ -1225,6 +1452,17 @@ fn ctl_strategy() -> BoxedStrategy<Vec<(u32, Ctl)>> {
     .boxed()
 }
 
+/// `lo..=hi` changes of a peer <-> victim link's latency at boundaries 2..last: short (1-3 ms) and long
+/// (6-20 ms) values, so that the latency drops while messages are on the wire (overtaking)
+fn link_lat_strategy(lo: usize, hi: usize, last: u32) -> BoxedStrategy<Vec<(u32, usize, u32)>> {
+    proptest::collection::vec((2u32..last, 0usize..MAX_VICT, prop_oneof![2 => 1u32..=3, 3 => 6u32..=20]), lo..=hi)
+        .prop_map(|mut v| {
+            v.sort_by_key(|c| c.0);
+            v
+        })
+        .boxed()
+}
+
 pub fn strategy() -> BoxedStrategy<Scenario> {
     (
         (1u32..=3, 1u32..=6, prop_oneof![1 => 1usize..=3, 2 => Just(64usize)], any::<u64>(), any::<bool>()),
@@ -1233,8 +1471,9 @@ pub fn strategy() -> BoxedStrategy<Scenario> {
         20u32..50,
         ctl_strategy(),
         (prop_oneof![2 => Just(1usize), 2 => Just(2usize), 4 => Just(3usize)], 0usize..6, proptest::collection::vec(target_strategy(), 6)),
+        prop_oneof![2 => Just(Vec::new()), 1 => link_lat_strategy(1, 3, 44)],
     )
-        .prop_map(|((tick_ms, lat_ms, capacity, seed, v6), mut flags, mut conns, run_steps, ctl, (nvict, perm, raw_targets))| {
+        .prop_map(|((tick_ms, lat_ms, capacity, seed, v6), mut flags, mut conns, run_steps, ctl, (nvict, perm, raw_targets), mut link_lat)| {
             flags.two_victims = nvict >= 2;
             if capacity < 8 {
                 // a listener with more pending requests than tcp_capacity is a documented panic:
@@ -1248,7 +1487,14 @@ pub fn strategy() -> BoxedStrategy<Scenario> {
             }
             let targets = normalise_targets(&raw_targets, ctl.len(), nvict);
             flags.by_regex = targets.iter().any(|t| !t.by_name);
-            Scenario { tick_ms, lat_ms, capacity, seed, v6, flags, conns, run_steps, ctl, strict_known: false, nvict, reg_order: nth_perm(nvict, perm), targets }
+            if capacity < 8 {
+                // connection requests sent apart could arrive together once the latency drops (see above)
+                link_lat.clear();
+            }
+            for c in link_lat.iter_mut() {
+                c.1 %= nvict;
+            }
+            Scenario { tick_ms, lat_ms, capacity, seed, v6, flags, conns, run_steps, ctl, strict_known: false, nvict, reg_order: nth_perm(nvict, perm), targets, lat_max_ms: 0, link_lat }
         })
         .boxed()
 }
@@ -1287,9 +1533,127 @@ pub fn strategy_parked() -> BoxedStrategy<Scenario> {
                 outgoing_flood: outgoing,
             };
             space_conns(&mut conns, nvict);
-            Scenario { tick_ms, lat_ms, capacity, seed, v6, flags, conns, run_steps, ctl, strict_known: false, nvict, reg_order: nth_perm(nvict, perm), targets }
+            Scenario { tick_ms, lat_ms, capacity, seed, v6, flags, conns, run_steps, ctl, strict_known: false, nvict, reg_order: nth_perm(nvict, perm), targets, lat_max_ms: 0, link_lat: vec![] }
         })
         .boxed()
+}
+
+/// Histories in which the segments of one stream do not arrive in the order in which they were sent:
+/// every message draws its own latency from a wide range, and / or the latency of a peer <-> victim link
+/// is raised and lowered during the run; send windows of 2-4 segments (with 1 nothing can overtake), peers
+/// that write continuously, victims that read everything at once, read slowly, or never read; crash at any
+/// step, never bounced or bounced after 0-25 steps.  At the crash instant a victim then holds, in any mix,
+/// segments its application has read, segments queued for it, and segments parked behind a gap.
+pub fn strategy_reorder() -> BoxedStrategy<Scenario> {
+    (
+        (1u32..=2, 1u32..=3, prop_oneof![2 => Just(0u32), 3 => 4u32..=16], prop_oneof![3 => Just(2usize), 2 => Just(3usize), 1 => Just(4usize)], any::<u64>(), any::<bool>()),
+        (prop_oneof![3 => Just(StreamMode::Sink), 3 => Just(StreamMode::Echo), 1 => Just(StreamMode::Idle), 2 => Just(StreamMode::Nibble)], any::<bool>(), any::<bool>(), any::<bool>()),
+        proptest::collection::vec((1u32..20, prop_oneof![3 => Just(PeerKind::Writer), 2 => Just(PeerKind::Both), 1 => Just(PeerKind::Reader)], 0usize..MAX_VICT), 1..5),
+        40u32..70,
+        prop_oneof![
+            3 => (4u32..40).prop_map(|i| vec![(i, Ctl::Crash)]),
+            4 => (4u32..40, 0u32..26).prop_map(|(i, d)| vec![(i, Ctl::Crash), (i + d, Ctl::Bounce)]),
+            1 => (4u32..40).prop_map(|i| vec![(i, Ctl::Bounce)]),
+            2 => (4u32..24, 0u32..12, 1u32..16, 0u32..16).prop_map(|(i, d, e, g)| vec![(i, Ctl::Crash), (i + d, Ctl::Bounce), (i + d + e, Ctl::Crash), (i + d + e + g, Ctl::Bounce)]),
+        ],
+        (prop_oneof![3 => Just(1usize), 2 => Just(2usize), 1 => Just(3usize)], 0usize..6, proptest::collection::vec(target_strategy(), 4)),
+        prop_oneof![1 => Just(Vec::new()), 2 => link_lat_strategy(1, 4, 40)],
+    )
+        .prop_map(|((tick_ms, lat_ms, extra, capacity, seed, v6), (stream_mode, bg_tasks, udp, flood), mut conns, run_steps, ctl, (nvict, perm, raw_targets), mut link_lat)| {
+            let lat_max_ms = if extra > 0 || link_lat.is_empty() { lat_ms + extra.max(4) } else { 0 };
+            let outgoing = flood && nvict == 1;
+            let targets = normalise_targets(&raw_targets, ctl.len(), nvict);
+            let flags = Flags {
+                accept: true,
+                stream_mode,
+                bg_tasks,
+                // datagram arrival steps are only asserted when they are exact
+                udp: udp && lat_max_ms == 0,
+                multicast: false,
+                fs: false,
+                outgoing,
+                two_victims: nvict >= 2,
+                by_regex: targets.iter().any(|t| !t.by_name),
+                outgoing_flood: outgoing,
+            };
+            for c in link_lat.iter_mut() {
+                c.1 %= nvict;
+            }
+            limit_conns_per_victim(&mut conns, nvict, capacity);
+            Scenario { tick_ms, lat_ms, capacity, seed, v6, flags, conns, run_steps, ctl, strict_known: false, nvict, reg_order: nth_perm(nvict, perm), targets, lat_max_ms, link_lat }
+        })
+        .boxed()
+}
+
+/// A listener with more pending requests than tcp_capacity is a documented panic, and with varying
+/// latencies requests sent apart can arrive in the same step: never more requests per victim than fit.
+fn limit_conns_per_victim(conns: &mut Vec<(u32, PeerKind, usize)>, nv: usize, cap: usize) {
+    conns.sort_by_key(|c| c.0);
+    let mut n: BTreeMap<usize, usize> = BTreeMap::new();
+    conns.retain(|(_, _, v)| {
+        let e = n.entry(v % nv).or_default();
+        *e += 1;
+        *e <= cap
+    });
+}
+
+/// One stream whose segments overtake each other: the peer <-> victim link is slowed down after step a
+/// and made fast again g steps later (segments written in between are still on the wire when later ones
+/// arrive), x victim mode x send window x a crash after each of the following steps, never bounced or
+/// bounced once the slow segments have arrived.
+fn reorder_window_space(tier: Tier) -> Vec<Scenario> {
+    let thorough = tier == Tier::Thorough;
+    let caps: Vec<usize> = if thorough { vec![2, 3, 4] } else { vec![2, 3] };
+    let slows: Vec<u32> = if thorough { vec![5, 9, 14] } else { vec![6, 12] };
+    let bases: Vec<u32> = if thorough { vec![1, 2] } else { vec![1] };
+    let mut out = Vec::new();
+    for cap in &caps {
+        for slow in &slows {
+            for base in &bases {
+                for shape in 0..4 {
+                    let (mode, conns) = match shape {
+                        0 => (StreamMode::Sink, vec![(2, PeerKind::Writer, 0)]),
+                        1 => (StreamMode::Echo, vec![(2, PeerKind::Both, 0)]),
+                        2 => (StreamMode::Idle, vec![(2, PeerKind::Writer, 0)]),
+                        _ => (StreamMode::Nibble, vec![(2, PeerKind::Writer, 0), (3, PeerKind::Both, 0)]),
+                    };
+                    let flags = Flags { accept: true, stream_mode: mode, bg_tasks: false, udp: false, multicast: false, fs: false, outgoing: false, two_victims: false, by_regex: false, outgoing_flood: false };
+                    for a in 3u32..=10 {
+                        for g in 1u32..=2 {
+                            let offs: Vec<u32> = if thorough { (1..=slow + 1).collect() } else { vec![1, 2, 3, 5, slow - 1] };
+                            for k in offs {
+                                let crash = a + g + k;
+                                let mut ctls = vec![vec![(crash, Ctl::Crash)]];
+                                if thorough || (a + g + k) % 3 == 0 {
+                                    ctls.push(vec![(crash, Ctl::Crash), (a + g + slow + 3, Ctl::Bounce)]);
+                                }
+                                for ctl in ctls {
+                                    out.push(Scenario {
+                                        tick_ms: 1,
+                                        lat_ms: *base,
+                                        capacity: *cap,
+                                        seed: shape as u64,
+                                        v6: (a + g) % 2 == 1,
+                                        flags: flags.clone(),
+                                        conns: conns.clone(),
+                                        run_steps: 40,
+                                        ctl,
+                                        strict_known: false,
+                                        nvict: 1,
+                                        reg_order: vec![0],
+                                        targets: vec![],
+                                        lat_max_ms: 0,
+                                        link_lat: vec![(a, 0, *slow), (a + g, 0, *base)],
+                                    });
+                                }
+                            }
+                        }
+                    }
+                }
+            }
+        }
+    }
+    out
 }
 
 /// Every registration order of three victims x every pair of crash target sets: crash(set 1), later
@@ -1319,6 +1683,8 @@ fn target_order_space(tier: Tier) -> Vec<Scenario> {
                         nvict: 3,
                         reg_order: nth_perm(3, perm),
                         targets: normalise_targets(&[Target { mask: m1, by_name }, Target { mask: m2, by_name: !by_name }, Target { mask: 0b111, by_name: false }], 3, 3),
+                        lat_max_ms: 0,
+                        link_lat: vec![],
                     });
                 }
             }
@@ -1358,6 +1724,8 @@ fn parked_writer_space(tier: Tier) -> Vec<Scenario> {
                             nvict: 1,
                             reg_order: vec![0],
                             targets: vec![],
+                            lat_max_ms: 0,
+                            link_lat: vec![],
                         });
                     }
                 }
@@ -1426,14 +1794,16 @@ fn exhaustive_space(tier: Tier) -> Vec<Scenario> {
                         nvict: 0,
                         reg_order: vec![],
                         targets: vec![],
+                        lat_max_ms: 0,
+                        link_lat: vec![],
                     });
                 }
                 if tier == Tier::Thorough {
                     // two cycles, and bounce without crash
-                    out.push(Scenario { tick_ms: 1, lat_ms: lat, capacity: *cap, seed: wi as u64, v6: wi % 2 == 1, flags: flags.clone(), conns: conns.clone(), run_steps, ctl: vec![(i, Ctl::Crash), (i + 2, Ctl::Bounce), (i + 6, Ctl::Crash), (i + 7, Ctl::Bounce)], strict_known: false, nvict: 0, reg_order: vec![], targets: vec![] });
+                    out.push(Scenario { tick_ms: 1, lat_ms: lat, capacity: *cap, seed: wi as u64, v6: wi % 2 == 1, flags: flags.clone(), conns: conns.clone(), run_steps, ctl: vec![(i, Ctl::Crash), (i + 2, Ctl::Bounce), (i + 6, Ctl::Crash), (i + 7, Ctl::Bounce)], strict_known: false, nvict: 0, reg_order: vec![], targets: vec![], lat_max_ms: 0, link_lat: vec![] });
                 }
                 if i % 3 == 0 {
-                    out.push(Scenario { tick_ms: 1, lat_ms: lat, capacity: *cap, seed: wi as u64, v6: wi % 2 == 1, flags: flags.clone(), conns: conns.clone(), run_steps, ctl: vec![(i, Ctl::Bounce)], strict_known: false, nvict: 0, reg_order: vec![], targets: vec![] });
+                    out.push(Scenario { tick_ms: 1, lat_ms: lat, capacity: *cap, seed: wi as u64, v6: wi % 2 == 1, flags: flags.clone(), conns: conns.clone(), run_steps, ctl: vec![(i, Ctl::Bounce)], strict_known: false, nvict: 0, reg_order: vec![], targets: vec![], lat_max_ms: 0, link_lat: vec![] });
                 }
             }
         }
@@ -1475,6 +1845,26 @@ pub fn fuzz_sanitize(sc: &mut Scenario) -> bool {
     }
     sc.targets = normalise_targets(&sc.targets, sc.ctl.len(), nv);
     sc.flags.by_regex = sc.targets.iter().any(|t| !t.by_name);
+    // latencies: fixed, or a range of up to 16 ms above the minimum; up to 4 changes of a link's latency
+    sc.lat_max_ms = if sc.lat_max_ms % 3 == 0 { 0 } else { sc.lat_ms + 4 + sc.lat_max_ms % 13 };
+    sc.link_lat.truncate(4);
+    for c in sc.link_lat.iter_mut() {
+        c.0 = 2 + c.0 % 58;
+        c.1 %= nv;
+        c.2 = 1 + c.2 % 20;
+    }
+    sc.link_lat.sort_by_key(|c| c.0);
+    if sc.lat_max_ms > 0 {
+        // datagram arrival steps are only asserted when they are exact
+        sc.flags.udp = false;
+        sc.flags.multicast = false;
+    }
+    if sc.lat_max_ms > 0 || !sc.link_lat.is_empty() {
+        // requests sent apart can arrive together: never more of them per victim than tcp_capacity
+        if sc.capacity < 8 {
+            limit_conns_per_victim(&mut sc.conns, nv, sc.capacity);
+        }
+    }
     !sc.ctl.is_empty()
 }
 
@@ -1502,12 +1892,24 @@ fn check(tier: Tier, seed: u64) -> i32 {
         space.len()
     );
     ctx.exhaustive("parked-writer-downtimes", &desc, Box::new(space.into_iter()), &run);
+    let space = reorder_window_space(tier);
+    let desc = format!(
+        "{} scenarios: one stream (sink / echo / never-reading / slowly reading victim) with a send window of {} segments; the peer <-> victim link is slowed to {} ms after step a = 3..10 and made fast again 1 or 2 steps later, so later segments overtake the ones written in between; a crash after {} of the steps that follow, never bounced or bounced once the slow segments have arrived",
+        space.len(),
+        tier.pick("2-3", "2-4"),
+        tier.pick("6 / 12", "5 / 9 / 14"),
+        tier.pick("5", "each")
+    );
+    ctx.exhaustive("reordered-stream-crash-window", &desc, Box::new(space.into_iter()), &run);
     ctx.random("random", tier.pick(4000, 50_000), &|| strategy(), &run);
     ctx.random("random-parked-writers", tier.pick(3000, 40_000), &|| strategy_parked(), &run);
+    ctx.random("random-reordering", tier.pick(3000, 40_000), &|| strategy_reorder(), &run);
     ctx.finish(
-        "fault enumeration: crash after every step of small workloads x downtimes, every registration order x pair of crash target sets for three victims, crash at every step x downtime around a peer writer with a full send window (see exhaustive_subspaces), plus random workloads/schedules (1-3 victims registered in any order, flags for accept loop, stream mode, background tasks, UDP, multicast, fs, outgoing connection; 0-5 peer connections of reader/writer/both/idle kind; histories of 1-6 crash / bounce calls, each with its own target: one victim by name, one victim by regex, any subset of the victims by one regex - so calls meet hosts that are already down or still up in every mix; repeated cycles, double crash, bounce without crash; tcp_capacity 1-3 or 64; sub 'random-parked-writers': tcp_capacity 1-3, latency 2-8 ms, reading victims, writer peers, downtimes 0-15 steps). Oracle: when Sim::crash returns, EVERY addressed victim has no live task guard, empty UDP/TCP/multicast tables (hook H1) and is_host_running false, and every victim that was not addressed has the same guards, factory-call count and running state as before; while down its progress counters are frozen and it emits no Send event; peers blocked on established streams or with a SYN queued at the victim are unblocked with EOF/ConnectionReset/ConnectionRefused within latency + 3 steps; a peer writer that was parked on flow control when the host went down and is not released by the crash itself (known finding F-C04-2 while it is listed as known) must be released within latency + 3 steps of the first step the host runs again after the window's segments have arrived; connects and datagrams that arrive during the downtime never reach the new incarnation; each bounce calls the software factory of each addressed victim exactly once and the new incarnation re-binds its fixed TCP and UDP ports and accepts again; bystander hosts' logs and the peer's connections to never-addressed victims equal a crash-free twin run. Non-trivial = at a crash the victim had an established stream, a pending connect or a blocked peer writer, or multicast/fs activity, or datagrams arrived during the downtime. Distinct by scenario hash.",
+        "fault enumeration: crash after every step of small workloads x downtimes, every registration order x pair of crash target sets for three victims, crash at every step x downtime around a peer writer with a full send window, crash at every step of the window in which segments of one stream have overtaken each other (see exhaustive_subspaces), plus random workloads/schedules (1-3 victims registered in any order, flags for accept loop, stream mode, background tasks, UDP, multicast, fs, outgoing connection; 0-5 peer connections of reader/writer/both/idle kind; histories of 1-6 crash / bounce calls, each with its own target: one victim by name, one victim by regex, any subset of the victims by one regex - so calls meet hosts that are already down or still up in every mix; repeated cycles, double crash, bounce without crash; tcp_capacity 1-3 or 64, with tcp_capacity 64 in a third of the cases 1-3 changes of a peer<->victim link's latency (1-3 / 6-20 ms) during the run; sub 'random-parked-writers': tcp_capacity 1-3, latency 2-8 ms, reading victims, writer peers, downtimes 0-15 steps; sub 'random-reordering': tcp_capacity 2-4, per-message latencies drawn from a range 4-16 ms wide and / or 1-4 changes of a link's latency, so that segments of a stream overtake each other, victims that read at once / 5 bytes at a time with pauses / never, writer peers, crash never bounced or bounced after 0-25 steps). Every segment a peer writes carries its stream and write number; the harness records which of them the victim's TCP stack was handed (turmoil's Delivered trace event) and which the victim's application read completely. Oracle: when Sim::crash returns, EVERY addressed victim has no live task guard, empty UDP/TCP/multicast tables (hook H1) and is_host_running false, and every victim that was not addressed has the same guards, factory-call count and running state as before; while down its progress counters are frozen and it emits no Send event; peers blocked on established streams or with a SYN queued at the victim are unblocked with EOF/ConnectionReset/ConnectionRefused within latency + 3 steps; a peer writer that was parked on flow control when the host went down while the victim held UNREAD data of that stream (handed to its stack and not completely read by its application: queued, partly read, or waiting in the reorder buffer behind a segment still on the wire) must fail its write within (latency in force at the crash) + 3 steps, bounce or no bounce; one that was parked while the victim held no unread data and is not released by the crash itself (known finding F-C04-2 while it is listed as known) must be released within latency + 3 steps of the first step the host runs again after the window's segments have arrived; connects and datagrams that arrive during the downtime never reach the new incarnation; each bounce calls the software factory of each addressed victim exactly once and the new incarnation re-binds its fixed TCP and UDP ports and accepts again; bystander hosts' logs and the peer's connections to never-addressed victims equal a crash-free twin run. Non-trivial = at a crash the victim had an established stream, a pending connect or a blocked peer writer, or multicast/fs activity, or datagrams arrived during the downtime. Distinct by scenario hash.",
         &[
-            "fixed latency >= 1 ms, fail_rate 0, fixed host order (bystanders, peer, then the victims in the generated order; needed for the twin comparison)",
+            "latency >= 1 ms, fail_rate 0, no partitions; fixed host order (bystanders, peer, then the victims in the generated order; needed for the twin comparison)",
+            "arrival steps are computed from the latency configuration the harness itself set (a message keeps the latency in force when it was sent); where latencies are drawn per message they are only known as ranges: clauses that need the exact arrival step of a connection request are then applied only when every step of the range gives the same verdict, datagram clauses and the twin comparison of the peer's connections to never-addressed victims are skipped, UDP is off, and the bystanders' own link is pinned to the fixed latency",
+            "never more connection requests per victim than tcp_capacity when latencies vary (requests sent apart can arrive in the same step; overflowing a listener's queue is a documented panic)",
             "victims' main futures never return (hosts whose software finished are outside the claim)",
             "events that arrive in the very first step of a new incarnation are not asserted either way",
             "a peer writer parked on a host that is down and never bounced (or bounced too late in the run to see the answer) is not asserted while F-C04-2 is known",
